@@ -149,6 +149,11 @@ type MemOptions struct {
 	Fault          *Fault
 	// OnFault is called (outside the lock) once when the fault strikes.
 	OnFault func()
+	// Latency, when set, is asked for every delivered piece (stream ordinal, direction, offset
+	// of its first byte); a positive answer keeps that piece - and, in order, everything
+	// behind it on the same stream direction, FIN included - unreadable for that long without
+	// blocking the writer (in-flight delay of one stream).
+	Latency func(ordinal int, d Dir, off int64) time.Duration
 	// WriteHook, when set, is called before every Write outside the lock (may block: schedule control).
 	WriteHook func(ordinal int, d Dir, n int)
 	// Mutate, when set, may return altered bytes (same length) for a chunk about to be
@@ -182,9 +187,16 @@ type memHalfPair struct {
 }
 
 type memQueue struct {
-	buf  []byte
-	fin  bool
-	dead bool // truncated: discard further writes
+	buf       []byte
+	fin       bool
+	dead      bool      // truncated: discard further writes
+	holdUntil time.Time // Latency: release time of the latest piece (later pieces and the FIN do not overtake it)
+	segs      []memSeg  // Latency: delivered pieces with their release times
+}
+
+type memSeg struct {
+	n  int
+	at time.Time
 }
 
 // MemConn is one end of a pair.
@@ -480,6 +492,22 @@ func (s *MemStream) deliverLocked(q *memQueue, d Dir, chunk []byte) {
 			chunk = alt
 		}
 	}
+	if l := sh.opts.Latency; l != nil {
+		at := time.Now()
+		if hold := l(s.hp.ordinal, d, off); hold > 0 {
+			at = at.Add(hold)
+			time.AfterFunc(hold+time.Millisecond, func() {
+				sh.mu.Lock()
+				sh.cond.Broadcast()
+				sh.mu.Unlock()
+			})
+		}
+		if at.Before(q.holdUntil) {
+			at = q.holdUntil // order is kept: nothing overtakes an earlier piece
+		}
+		q.holdUntil = at
+		q.segs = append(q.segs, memSeg{n: len(chunk), at: at})
+	}
 	q.buf = append(q.buf, chunk...)
 	sh.moved += int64(len(chunk))
 	sh.lastMove = time.Now()
@@ -543,11 +571,39 @@ func (s *MemStream) Read(p []byte) (int, error) {
 		if e := sh.connErr[s.side]; e != nil {
 			return 0, e
 		}
-		if len(q.buf) > 0 {
+		avail := len(q.buf)
+		held := false
+		if sh.opts.Latency != nil {
+			now := time.Now()
+			avail = 0
+			for _, sg := range q.segs {
+				if sg.at.After(now) {
+					held = true
+					break
+				}
+				avail += sg.n
+			}
+			if len(q.segs) == 0 && now.Before(q.holdUntil) {
+				held = true // only the FIN is still in flight
+			}
+		}
+		if avail > 0 {
 			if seg := sh.opts.Segment; seg > 0 && len(p) > seg {
 				p = p[:seg]
 			}
+			if len(p) > avail {
+				p = p[:avail]
+			}
 			n := copy(p, q.buf)
+			for left := n; left > 0 && len(q.segs) > 0; {
+				if q.segs[0].n <= left {
+					left -= q.segs[0].n
+					q.segs = q.segs[1:]
+				} else {
+					q.segs[0].n -= left
+					left = 0
+				}
+			}
 			q.buf = q.buf[n:]
 			if len(q.buf) == 0 {
 				q.buf = nil
@@ -555,7 +611,7 @@ func (s *MemStream) Read(p []byte) (int, error) {
 			sh.cond.Broadcast()
 			return n, nil
 		}
-		if q.fin {
+		if q.fin && !held {
 			return 0, io.EOF
 		}
 		if !s.rdl.IsZero() && !time.Now().Before(s.rdl) {
